@@ -77,6 +77,147 @@
     }
 
 
+    // ---- single-step obligations on an ARBITRARY well-formed table (the inductive step, instead of whole add sequences).
+    // They state exactly the closure-dependent facts the Verus unit (linetable.verus.rs) cannot derive from the verbatim
+    // text: add_line_record leaves the table unchanged ONLY when the last record already has this line, and get_line /
+    // get_span return the record the abstract view `line_of_seq` names. Together with the Verus invariant (sortedness,
+    // stability of earlier answers, any number of instructions) this is the table's whole contract; the bound here is
+    // only the number of RECORDS in the table the step starts from.
+    fn empty_instructions() -> Instructions<'static> {
+        Instructions {
+            instructions: Vec::new(),
+            line_infos: Vec::new(),
+            #[cfg(feature = "debug")]
+            span_infos: Vec::new(),
+            name: "n",
+            source: "s",
+            #[cfg(feature = "multi_template")]
+            required_block: false,
+        }
+    }
+    /// an arbitrary strictly sorted line table with n <= 3 records
+    fn any_line_table(keys: &mut [u32; 3], lines: &mut [u16; 3]) -> (Instructions<'static>, usize) {
+        let mut ins = empty_instructions();
+        let n: usize = kani::any(); kani::assume(n <= 3);
+        *keys = kani::any(); *lines = kani::any();
+        kani::assume(keys[0] < keys[1] && keys[1] < keys[2]);
+        let mut i = 0;
+        while i < n { ins.line_infos.push(LineInfo { first_instruction: keys[i], line: lines[i] }); i += 1; }
+        (ins, n)
+    }
+
+//# ob name=lt_record_step fn=compiler::instructions::Instructions::add_line_record kind=bounded bound="tables of 0..=3 records with arbitrary strictly increasing u32 keys and arbitrary u16 lines; any new instruction index above the last key; any line" stmt="add_line_record(i, line): the table is left unchanged exactly when its last record already has this line; otherwise exactly the record (i, line) is appended and every earlier record is untouched"
+    #[kani::proof]
+    #[kani::unwind(5)]
+    fn lt_record_step() {
+        let (mut keys, mut lines) = ([0u32; 3], [0u16; 3]);
+        let (mut ins, n) = any_line_table(&mut keys, &mut lines);
+        let instr: u32 = kani::any(); let line: u16 = kani::any();
+        kani::assume(n == 0 || instr > keys[n - 1]);
+        ins.add_line_record(instr, line);
+        let same = n > 0 && lines[n - 1] == line;
+        if same {
+            assert!(ins.line_infos.len() == n);
+        } else {
+            assert!(ins.line_infos.len() == n + 1);
+            assert!(ins.line_infos[n].first_instruction == instr && ins.line_infos[n].line == line);
+        }
+        let mut i = 0;
+        while i < n { assert!(ins.line_infos[i].first_instruction == keys[i] && ins.line_infos[i].line == lines[i]); i += 1; }
+        kani::cover!(same, "unchanged");
+        kani::cover!(n == 3 && !same, "appended to a full table");
+        std::mem::forget(ins);
+    }
+
+//# ob name=lt_lookup_step fn=compiler::instructions::Instructions::get_line kind=bounded bound="tables of 0..=3 records with arbitrary strictly increasing u32 keys and arbitrary u16 lines; every u32 instruction index" stmt="get_line(idx) is the line of the last record whose first_instruction <= idx, and None when there is no such record (the abstract view line_of_seq of the Verus unit)"
+    #[kani::proof]
+    #[kani::unwind(5)]
+    fn lt_lookup_step() {
+        let (mut keys, mut lines) = ([0u32; 3], [0u16; 3]);
+        let (ins, n) = any_line_table(&mut keys, &mut lines);
+        let idx: u32 = kani::any();
+        let mut exp: Option<usize> = None; let mut i = 0;
+        while i < n { if keys[i] <= idx { exp = Some(lines[i] as usize); } i += 1; }
+        assert!(ins.get_line(idx) == exp);
+        kani::cover!(n == 3 && exp.is_none(), "before the first record");
+        kani::cover!(n == 3 && idx == keys[1], "exactly the first instruction of a record");
+        kani::cover!(n == 3 && idx > keys[2], "after the last record");
+        std::mem::forget(ins);
+    }
+
+    #[cfg(feature = "debug")]
+    fn any_span(tag: u32) -> Span {
+        // arbitrary lines/columns, offsets made distinct per call site so that two symbolic spans may or may not be equal
+        Span { start_line: kani::any(), start_col: kani::any(), start_offset: kani::any(), end_line: kani::any(), end_col: kani::any(), end_offset: tag }
+    }
+    #[cfg(feature = "debug")]
+    fn any_span_table(keys: &mut [u32; 2], spans: &mut [Span; 2]) -> (Instructions<'static>, usize) {
+        let mut ins = empty_instructions();
+        let n: usize = kani::any(); kani::assume(n <= 2);
+        *keys = kani::any();
+        kani::assume(keys[0] < keys[1]);
+        spans[0] = any_span(kani::any()); spans[1] = any_span(kani::any());
+        let mut i = 0;
+        while i < n { ins.span_infos.push(SpanInfo { first_instruction: keys[i], span: spans[i] }); i += 1; }
+        (ins, n)
+    }
+
+//# ob name=st_span_step fn=compiler::instructions::Instructions::add_with_span kind=bounded bound="span tables of 0..=2 records (arbitrary spans incl. the default span, increasing keys), empty line table; any span" stmt="add_with_span(instr, span): the span table is unchanged exactly when its last record already has this span, otherwise exactly (rv, span) is appended; the line record (rv, span.start_line) is appended; rv is the new instruction's index"
+    #[cfg(feature = "debug")]
+    #[kani::proof]
+    #[kani::unwind(5)]
+    fn st_span_step() {
+        let (mut keys, mut spans) = ([0u32; 2], [Span::default(); 2]);
+        let (mut ins, n) = any_span_table(&mut keys, &mut spans);
+        let span = any_span(kani::any());
+        let rv = ins.add_with_span(Instruction::Emit, span);
+        assert!(rv == 0 && ins.instructions.len() == 1);
+        let same = n > 0 && spans[n - 1] == span;
+        if same { assert!(ins.span_infos.len() == n); }
+        else { assert!(ins.span_infos.len() == n + 1 && ins.span_infos[n].first_instruction == rv && ins.span_infos[n].span == span); }
+        let mut i = 0;
+        while i < n { assert!(ins.span_infos[i].first_instruction == keys[i] && ins.span_infos[i].span == spans[i]); i += 1; }
+        assert!(ins.line_infos.len() == 1 && ins.line_infos[0].first_instruction == rv && ins.line_infos[0].line == span.start_line);
+        kani::cover!(same, "unchanged");
+        kani::cover!(n == 2 && !same, "appended");
+        std::mem::forget(ins);
+    }
+
+//# ob name=st_line_clears_span fn=compiler::instructions::Instructions::add_with_line kind=bounded bound="span tables of 0..=2 records (arbitrary spans incl. the default span), empty line table; any line" stmt="add_with_line(instr, line) after a record with a real span appends the 'no span' record (rv, Span::default()) so that the new instruction does not inherit the span; after no record or a 'no span' record the span table is unchanged; the line record (rv, line) is appended"
+    #[cfg(feature = "debug")]
+    #[kani::proof]
+    #[kani::unwind(5)]
+    fn st_line_clears_span() {
+        let (mut keys, mut spans) = ([0u32; 2], [Span::default(); 2]);
+        let (mut ins, n) = any_span_table(&mut keys, &mut spans);
+        let line: u16 = kani::any();
+        let rv = ins.add_with_line(Instruction::Emit, line);
+        assert!(rv == 0);
+        let clears = n > 0 && spans[n - 1] != Span::default();
+        if clears { assert!(ins.span_infos.len() == n + 1 && ins.span_infos[n].first_instruction == rv && ins.span_infos[n].span == Span::default()); }
+        else { assert!(ins.span_infos.len() == n); }
+        assert!(ins.line_infos.len() == 1 && ins.line_infos[0].first_instruction == rv && ins.line_infos[0].line == line);
+        kani::cover!(clears, "clears");
+        kani::cover!(n == 2 && !clears, "nothing to clear");
+        std::mem::forget(ins);
+    }
+
+//# ob name=st_lookup_step fn=compiler::instructions::Instructions::get_span kind=bounded bound="span tables of 0..=2 records with arbitrary spans (incl. the default span) and increasing keys; every u32 instruction index" stmt="get_span(idx) is the span of the last record whose first_instruction <= idx unless that is the 'no span' record, and None when there is no such record"
+    #[cfg(feature = "debug")]
+    #[kani::proof]
+    #[kani::unwind(5)]
+    fn st_lookup_step() {
+        let (mut keys, mut spans) = ([0u32; 2], [Span::default(); 2]);
+        let (ins, n) = any_span_table(&mut keys, &mut spans);
+        let idx: u32 = kani::any();
+        let mut exp: Option<Span> = None; let mut i = 0;
+        while i < n { if keys[i] <= idx { exp = if spans[i] != Span::default() { Some(spans[i]) } else { None }; } i += 1; }
+        assert!(ins.get_span(idx) == exp);
+        kani::cover!(n == 2 && idx == keys[1] && exp.is_some(), "first instruction of the second record");
+        kani::cover!(n == 2 && idx >= keys[1] && spans[1] == Span::default(), "cleared");
+        std::mem::forget(ins);
+    }
+
     // The two Kani harnesses above exhaust memory / time (CBMC models the 256-slot instruction vector and the
     // binary search symbolically: > 20 GB), so they are disabled and the side tables get a BOUNDED native stand-in.
 //# ob name=side_tables_native role=native_bounded fn=compiler::instructions::Instructions::{add,add_with_line,add_with_span,get_line,get_span} kind=bounded bound="every sequence of 0..=7 instructions, each added {without location, with a line from {1,2,3}, with a span from 3 distinct spans}: 7^7 + ... sequences, exhaustive" stmt="get_line(i) / get_span(i) return the location given to instruction i or inherited from the nearest located predecessor per the table's rule; answers for earlier instructions never change when more are added; both side tables stay strictly sorted by first_instruction"
